@@ -47,7 +47,7 @@ static std::vector<CheckSpec> make_specs() {
     add("C09", "exploration", {{"sloppy", 300000}, {"capacity", 2500}}, {{"sloppy", 6000000}, {"capacity", 60000}},
         "parser: sloppy workload, latch monitor over the recorded history - after the first call that sets an error, every advancing call returns false, every getter is neutral, the flag stays set until init/reset/verify(print,to_string). writer: capacity sweep places the first failing write at every position, arbitrary further writes follow: all false, nothing stored, counter keeps matching the reference size. non-trivial = at least one call was made after an error had been latched",
         {"sampling"});
-    add("C16", "exploration", {{"sloppy", 150000}, {"traverse", 60000}, {"nav", 60000}, {"capacity", 400}, {"tostring", 400}}, {{"sloppy", 5000000}, {"traverse", 2000000}, {"nav", 2000000}, {"capacity", 15000}, {"tostring", 15000}},
+    add("C16", "exploration", {{"sloppy", 150000}, {"traverse", 60000}, {"nav", 60000}, {"capacity", 400}, {"tostring", 400}, {"cppwrap", 1500}}, {{"sloppy", 5000000}, {"traverse", 2000000}, {"nav", 2000000}, {"capacity", 15000}, {"tostring", 15000}, {"cppwrap", 50000}},
         "every API call of every run executes under a per-call budget of len+16 token callbacks (exceeding it aborts the call: deterministic liveness violation) and a 10 s CPU watchdog; per call: callbacks <= bytes advanced + 2; verify: callbacks <= len + 2. non-trivial = the run made at least 3 token callbacks",
         {"callback-free loops (writer calls, print / to_string formatting loops) are only seen by the CPU watchdog", "sampling"});
     add("C08", "exploration", {{"traverse", 500000}}, {{"traverse", 8000000}},
@@ -65,7 +65,7 @@ static std::vector<CheckSpec> make_specs() {
     add("C15", "fault_enumeration", {{"cppwrap", 12000}}, {{"cppwrap", 250000}},
         "fault-free: random trees -> put -> serialize == reference encoding; three deserialize overloads -> structural equality; arbitrary bytes: returns normally iff verify(depth 10) accepts, else std::exception. fault-injecting: the k-th operator new inside a Binson call throws for every k (sampled above 300): std::exception or correct completion, never crash/leak. non-trivial = tree with >= 3 nodes or corrupted bytes of length >= 2",
         {"reference encoder", "allocation-failure axis exhaustive per operation up to 300 allocations"});
-    add("C17", "exploration", {{"interleave", 6000}, {"sloppy", 40000}, {"nav", 30000}, {"traverse", 20000}, {"reuse", 10000}, {"capacity", 300}, {"tostring", 300}},
+    add("C17", "exploration", {{"interleave", 6000}, {"sloppy", 40000}, {"nav", 30000}, {"traverse", 20000}, {"reuse", 10000}, {"capacity", 1200}, {"tostring", 600}},
         {{"interleave", 300000}, {"sloppy", 1500000}, {"nav", 1000000}, {"traverse", 600000}, {"reuse", 300000}, {"capacity", 10000}, {"tostring", 10000}},
         "dynamic reading only. (1) interleave: 2-4 caller tasks (real threads parked on semaphores, one released at a time by the seeded scheduler) run sloppy/nav/capacity/tostring/traverse scripts on their own objects; task switches at API-call, token-callback and (yield build) libc-call boundaries; every task's event log must equal its solo log. (2) allocator gate: in the yield build malloc/calloc/realloc/free/aligned_alloc/posix_memalign are wrapped; reaching one while inside a library call is a violation; all engines run under the gate. (3) footprint: stack high-water of every public function on documents with identical leaves at object nesting 1..255, array nesting 1..255 and string sizes 4..65000 must not grow. non-trivial (interleave) = at least 4 task switches; distinct interleavings are counted in model_transitions_covered (hash of the switch sequence)",
         {"NOT decided: that no execution at all can reach an allocator / recursion / VLA (a statement about object code; the property's own observe_at names nm, -fstack-usage, call graph - static inspection, a different technique)", "a static written and read back between two consecutive yield points of one call is invisible to a serialising scheduler", "the C++ class allocates by design and is outside this property"});
